@@ -285,6 +285,36 @@ def coinbase_tx(
     )
 
 
+def legacy_sig_message(
+    txins: typing.List[bytes],
+    txin_index: int,
+    scriptcode: bytes,
+    txouts: typing.List[bytes],
+    version: int = 1,
+    locktime: int = 0,
+) -> bytes:
+    """
+    Generate message to sign for a non-witness input, i.e. the transaction in which
+    the input being signed has scriptcode as its scriptSig and the scriptSig of every
+    other input is empty. The 4 byte sighash flag is appended by bits.sig
+    https://en.bitcoin.it/wiki/OP_CHECKSIG
+    Args:
+        txins: list[bytes], inputs
+        txin_index: int, index corresponding to txins for the input we are signing
+        scriptcode: bytes, scriptPubKey of the output being spent (redeem script if p2sh)
+        txouts: list[bytes], outputs
+        version: int, version
+        locktime: int, locktime
+    """
+    if txin_index not in range(len(txins)):
+        raise IndexError("txin_index out of range")
+    txins_ = [
+        txin(txin_[:36], scriptcode if i == txin_index else b"", sequence=txin_[-4:])
+        for i, txin_ in enumerate(txins)
+    ]
+    return tx(txins_, txouts, version=version, locktime=locktime)
+
+
 def send_tx(
     sender_addr: bytes,
     recipient_addr: bytes,
@@ -474,26 +504,49 @@ def send_tx(
             ]
         else:
             # p2sh / p2pk / p2pkh / multisig
-            msg = tx_
-            signatures = [bits.sig(key, msg, sighash_flag=sighash_flag) for key in keys]
+            # each input is signed separately, scriptcode is the scriptsig set above
+            msgs = [
+                legacy_sig_message(
+                    txins,
+                    txin_index,
+                    bytes.fromhex(txin_deser(txin_)[0]["scriptsig"]),
+                    txouts,
+                    version=version,
+                    locktime=locktime,
+                )
+                for txin_index, txin_ in enumerate(txins)
+            ]
+            signatures = [
+                [bits.sig(key, msg, sighash_flag=sighash_flag) for key in keys]
+                for msg in msgs
+            ]
 
-        # form final scriptsig / witnesses
+        # form final scriptsig / witnesses, per input
+        sender_scriptsigs = [sender_scriptsig] * len(txins)
         if addr_types[0] == "p2pk":
-            sender_scriptsig = bits.script.script([signatures[0].hex()])
+            sender_scriptsigs = [
+                bits.script.script([signatures[i][0].hex()]) for i in range(len(txins))
+            ]
             sender_witnesses = []
         elif addr_types[0] == "multisig":
-            sender_scriptsig = bits.script.script(
-                ["OP_0"] + [signature.hex() for signature in signatures]
-            )
+            sender_scriptsigs = [
+                bits.script.script(
+                    ["OP_0"] + [signature.hex() for signature in signatures[i]]
+                )
+                for i in range(len(txins))
+            ]
             sender_witnesses = []
         elif addr_types[0] == "p2pkh":
             compressed = True if datums[0] else False
-            sender_scriptsig = bits.script.script(
-                [
-                    signatures[0].hex(),
-                    bits.keys.pub(keys[0], compressed=compressed).hex(),
-                ]
-            )
+            sender_scriptsigs = [
+                bits.script.script(
+                    [
+                        signatures[i][0].hex(),
+                        bits.keys.pub(keys[0], compressed=compressed).hex(),
+                    ]
+                )
+                for i in range(len(txins))
+            ]
             sender_witnesses = []
         elif addr_types[0] in ["p2wpkh", "p2sh-p2wpkh"]:
             sender_witnesses = [
@@ -514,9 +567,14 @@ def send_tx(
                 script_args = []
 
             if addr_types[0] == "p2sh":
-                script_args += [signature.hex() for signature in signatures]
-                script_args += [redeem_script.hex()]
-                sender_scriptsig = bits.script.script(script_args)
+                sender_scriptsigs = [
+                    bits.script.script(
+                        script_args
+                        + [signature.hex() for signature in signatures[i]]
+                        + [redeem_script.hex()]
+                    )
+                    for i in range(len(txins))
+                ]
                 sender_witnesses = []
             elif addr_types[0] in ["p2wsh", "p2sh-p2wsh"]:
                 sender_witnesses = [
@@ -530,7 +588,7 @@ def send_tx(
                 ]
 
         txins_prime = []
-        for txi in txins:
+        for txi, sender_scriptsig in zip(txins, sender_scriptsigs):
             txin_deserialized, _ = txin_deser(txi)
             txid = bytes.fromhex(txin_deserialized["txid"])
             vout = txin_deserialized["vout"]
